@@ -273,6 +273,22 @@ fn c01(tier: Tier) -> CheckDef {
     }
 }
 
+/// Number of primitive reader operations the drivers perform on seed `si` under `g`
+/// (None: the drivers panicked or did not return within 10 s).
+fn count_ops_watched(si: usize, g: G) -> Option<u64> {
+    let (tx, rx) = std::sync::mpsc::channel();
+    let _ = std::thread::Builder::new().stack_size(64 << 20).spawn(move || {
+        let r = mcx::guard(|| {
+            let s = &seeds::seeds()[si];
+            let ss = (s.gen)(g);
+            let mut c = mcx::engine::placeholder_ctx();
+            run_case(&mut c, &|| String::new(), &ss, s.primary, cfgs_of(g), Plan::Count, 0).ops
+        });
+        let _ = tx.send(r.ok());
+    });
+    rx.recv_timeout(std::time::Duration::from_secs(10)).ok().flatten()
+}
+
 fn add_seed_subs(subs: &mut Vec<Sub>, sz: Sz) {
     let tier = sz.tier;
     let _ = tier;
@@ -426,11 +442,13 @@ fn add_seed_subs(subs: &mut Vec<Sub>, sz: Sz) {
         let mut capped = 0u64;
         for (si, s) in sd.iter().enumerate() {
             for (gi, g) in g_set.iter().enumerate().take(g_use) {
-                let ss = (s.gen)(*g);
-                let mut c = mcx::engine::placeholder_ctx();
-                let o = run_case(&mut c, &|| String::new(), &ss, s.primary, cfgs_of(*g), Plan::Count, 0);
-                let n = o.ops.min(cap);
-                if o.ops > cap {
+                // Counting executes the subject: do it on a watched thread, so that a hang or panic
+                // there cannot stop this process before the first case (it is then reproduced, and
+                // attributed, by the cases themselves, which run with the largest count).
+                let ops = count_ops_watched(si, *g).unwrap_or(u64::MAX);
+                let _ = s;
+                let n = ops.min(cap);
+                if ops > cap {
                     capped += 1;
                 }
                 offs.push((si, gi, total, n));
